@@ -60,10 +60,14 @@ def _tofloat(fr):
 
 
 class Ctx:
-    def __init__(self, force=None, assign=None):
+    def __init__(self, force=None, assign=None, variants=()):
         self.force = force
         self.assign = assign or {}
         self.amb = {}
+        # variants: named, documented deviations of the implementation (known findings); used only to
+        # *classify* an already detected difference, never to accept one silently.
+        self.variants = set(variants)
+        self.variant_hits = set()
 
     def choose(self, key, cands):
         cands = tuple(sorted(set(cands)))
@@ -78,9 +82,14 @@ class Ctx:
 
 
 def _band_cands(t, exact_ops):
-    """Acceptable integer floors of a float evaluation of the exact rational t."""
-    if t.denominator == 1 and exact_ops:
-        return [int(t)]
+    """Acceptable integer floors of a float evaluation of the exact rational t.
+
+    exact_ops: every floating-point operation before the final division is exact, so the
+    implementation's value is the correctly rounded t; then only floor(t) (the real-number answer)
+    and floor(fl(t)) (the correctly rounded one) are acceptable.  Otherwise every floor within a
+    band of a few ulps of t is."""
+    if exact_ops:
+        return sorted({math.floor(t), math.floor(Fraction(_tofloat(t))) if abs(t) < 10**300 else math.floor(t)})
     band = max(abs(t), 1) * Fraction(1, 2**50)
     lo = math.floor(t - band)
     hi = math.floor(t + band)
@@ -178,7 +187,11 @@ def frag(node, items, suppress, ctx):
         return fj(_tofloat(sum((Fraction(S.transform_value(t, w)) for w in W), Fraction(0))))
 
     if k == "Sum":
-        s = _fsum([_mulw(_q(node, r), w) for r, w in items]) if items else 0.0
+        terms = [_mulw(_q(node, r), w) for r, w in items]
+        if "sum_drop_nan" in ctx.variants and any(_isnan(float(_q(node, r))) for r, _ in items):
+            ctx.variant_hits.add("sum_drop_nan")
+            terms = [_mulw(_q(node, r), w) for r, w in items if not _isnan(float(_q(node, r)))]
+        s = _fsum(terms) if terms else 0.0
         return _maybe({"entries": fj(entries), "sum": fj(s)}, name=name)
 
     if k in ("Average", "Deviate"):
@@ -260,6 +273,9 @@ def frag(node, items, suppress, ctx):
                 nan.append((r, w))
             else:
                 c = sparse_index_cands(bw, origin, q)
+                if "sparse_drop_huge" in ctx.variants and not math.isinf(q) and abs(c[0]) == S.LONG_PLUSINF:
+                    ctx.variant_hits.add("sparse_drop_huge")
+                    continue
                 i = ctx.choose(("SparselyBin", bw, origin, q), c)
                 bins.setdefault(i, []).append((r, w))
         d = {
@@ -423,8 +439,8 @@ def spec_version():
     return _version
 
 
-def ref_doc(spec, stream, force=None, assign=None, ctx_out=None):
-    ctx = Ctx(force, assign)
+def ref_doc(spec, stream, force=None, assign=None, ctx_out=None, variants=()):
+    ctx = Ctx(force, assign, variants)
     items = [(r, w) for r, w in stream if gate(w)]
     doc = {"type": spec["k"], "data": frag(spec, items, False, ctx), "version": spec_version()}
     if ctx_out is not None:
@@ -432,14 +448,22 @@ def ref_doc(spec, stream, force=None, assign=None, ctx_out=None):
     return doc
 
 
-MAX_AMB = 9
+MAX_AMB = 7
 
 
-def match(spec, stream, observed, scale, force=None, drop_names=False):
+def match(spec, stream, observed, scale, force=None, drop_names=False, variants=(), hits_out=None, norm=None):
     """Does `observed` equal the model of (spec, stream) for some acceptable choice in the
-    ambiguity bands?  Returns (ok, differences-of-closest-attempt, n_ambiguous, inconclusive)."""
+    ambiguity bands?  Returns (ok, differences-of-closest-attempt, n_ambiguous, inconclusive).
+    variants/norm are only used to classify an already detected difference (known findings)."""
     out = []
-    doc = ref_doc(spec, stream, force, None, out)
+
+    def model(assign):
+        d = ref_doc(spec, stream, force, assign, out, variants=variants)
+        return norm(d) if norm else d
+
+    doc = model(None)
+    if hits_out is not None:
+        hits_out.update(out[0].variant_hits)
     d = diff(doc, observed, scale, drop_names=drop_names)
     amb = out[0].amb
     if not d:
@@ -447,17 +471,37 @@ def match(spec, stream, observed, scale, force=None, drop_names=False):
     if not amb:
         return False, d, 0, False
     keys = sorted(amb, key=repr)
-    if len(keys) > MAX_AMB:
-        return False, d, len(keys), True
     best = d
-    for combo in itertools.product(*[range(len(amb[k])) for k in keys]):
-        doc = ref_doc(spec, stream, force, dict(zip(keys, combo)))
-        dd = diff(doc, observed, scale, drop_names=drop_names)
-        if not dd:
-            return True, [], len(keys), False
-        if len(dd) < len(best):
-            best = dd
-    return False, best, len(keys), False
+    if len(keys) <= MAX_AMB:
+        for combo in itertools.product(*[range(len(amb[k])) for k in keys]):
+            doc = model(dict(zip(keys, combo)))
+            dd = diff(doc, observed, scale, drop_names=drop_names, limit=10**6)
+            if not dd:
+                return True, [], len(keys), False
+            if len(dd) < len(best):
+                best = dd
+        return False, best, len(keys), False
+    # many band values: the choices are independent (each moves one datum between two bins), so
+    # coordinate descent on the number of differences finds an explaining assignment if one exists
+    assign = {}
+    cur = len(diff(doc, observed, scale, drop_names=drop_names, limit=10**6))
+    for _ in range(3):
+        improved = False
+        for k in keys:
+            for ci in range(len(amb[k])):
+                if assign.get(k) == ci:
+                    continue
+                trial = dict(assign)
+                trial[k] = ci
+                dd = diff(model(trial), observed, scale, drop_names=drop_names, limit=10**6)
+                if len(dd) < cur:
+                    cur, assign, improved, best = len(dd), trial, True, dd
+                    if not dd:
+                        return True, [], len(keys), False
+        if not improved:
+            break
+    # could not explain the observation; with this many band values the search is not exhaustive
+    return False, best, len(keys), True
 
 
 def routing_classes(spec, stream):
